@@ -191,6 +191,19 @@ CHECKS.update({
     ),
 })
 
+CHECKS.update({
+    "C16": (
+        "generated forms mixing bilinear/linear/argument-free terms; oracle = numerical split by arity obtained by zeroing/replacing the arguments' polynomial coefficients in the interpreter",
+        "Hypothesis-generated forms a(u,v) + L(v) + M (terms of each arity, linear parts hidden under operators via u -> u + g, "
+        "1-3 integrals with subdomain ids and metadata, real and complex data): lhs, rhs, system, functional, action (with "
+        "and without given coefficient), adjoint and energy_norm are each compared per (integral type, subdomain, "
+        "metadata) with the ground truth a(U,V) = F(U,V)-F(0,V)-F(U,0)+F(0,0), L(V) = F(0,V)-F(0,0), M = F(0,0), "
+        "a(f,V), a(f,f), conj(a(v,u)); rhs must not depend on the trial function; adjoint must swap spaces and numbers.",
+        "Trusts the interpreter; arguments inside conditionals are not generated (lhs/rhs reject them with a ValueError).",
+        "4/C16",
+    ),
+})
+
 NOT_YET = {}
 
 
